@@ -299,6 +299,43 @@ func c19Families(tier string) []explore.Family {
 			r.Violation("differs:closer-prefix-inside-tag", map[string]any{"delims": q, "template": src}, want, o.String())
 		}
 	}})
+	// Delims may be called more than once on an engine: the LAST call decides, position by position - also when it names
+	// nothing but defaults (four empty strings, or the default strings themselves) after a custom quadruple
+	dq := [][4]string{{"<<", ">>", "<%", "%>"}, {"", "", "", ""}, {"{{", "}}", "{%", "%}"}, {"[", "]", "<", ">"}, {"<<", "", "", "%>"}, {"", ">>", "<%", ""}, {"{{", "}}", "<%", "%>"}, {"$", "$$", "[[", "]]"}}
+	fams = append(fams, explore.Family{Name: "delims-called-twice", Count: int64(len(dq) * len(dq) * 3), Run: func(i int64, r *explore.Rec) {
+		rx := radix{i}
+		ti, b, a := rx.next(3), dq[rx.next(len(dq))], dq[rx.next(len(dq))]
+		eff := b
+		for k := range eff {
+			if eff[k] == "" {
+				eff[k] = c19Default[k]
+			}
+		}
+		if !c19Valid(eff) {
+			return
+		}
+		src := c19Spell(c19Templates[ti], eff, false)
+		render := func(calls ...[4]string) Outcome {
+			var o Outcome
+			o.Panic = explore.Safe(func() {
+				e := liquid.NewEngine()
+				for _, q := range calls {
+					e.Delims(q[0], q[1], q[2], q[3])
+				}
+				out, err := e.ParseAndRender([]byte(src), c19Bind())
+				o.Out, o.Err = string(out), err
+			})
+			return o
+		}
+		r.Eval()
+		r.Eval()
+		r.Trace()
+		twice, once := render(a, b), render(b)
+		r.Class("delims-twice/" + once.Class())
+		if twice.Sig() != once.Sig() {
+			r.Violation("differs:delims-called-twice", map[string]any{"first_call": a, "second_call": b, "template": src}, "as on an engine that only got the second call: "+once.String(), twice.String())
+		}
+	}})
 	// each subset of positions left empty = default at that position
 	reps := [][4]string{{"<", ">", "[", "]"}, {"<<", ">>", "<$", "$>"}, {"[", "]", "<", ">"}, {"$", `\`, "<", ">"}, {"<[", "]>", "[<", ">]"}, {"<", ">>", "[[", "]"}}
 	if tier == "thorough" {
